@@ -121,8 +121,13 @@ func newCompiler(
 	if constsCache == nil {
 		constsCache = make(map[Object]int)
 		for i := range opts.Constants {
-			switch opts.Constants[i].(type) {
-			case Int, Uint, String, Bool, Float, Char, *UndefinedType:
+			switch v := opts.Constants[i].(type) {
+			case Float:
+				// negative zero and zero are the same map key, see addConstant
+				if v != 0 || !math.Signbit(float64(v)) {
+					constsCache[v] = i
+				}
+			case Int, Uint, String, Bool, Char, *UndefinedType:
 				constsCache[opts.Constants[i]] = i
 			}
 		}
